@@ -21,12 +21,12 @@ Reports == [len : {80}, id : Ids, ts : {0}, v : {Small(5)},
             sig : {[by |-> k, ok |-> TRUE, tag |-> "rs"] : k \in DKeys}]
 
 MCInit ==
-  /\ now = 0 /\ up = "up"
+  /\ now = 0 /\ up = "down"          \* before the very first start: no file exists
   /\ gca = [avail |-> FALSE, key |-> NoKey]
   /\ equip = EmptyFn /\ pkidx = EmptyFn /\ bans = {} /\ offset = 0
   /\ live = EmptyFn /\ impact = EmptyFn /\ archive = <<>>
   /\ servers = <<>> /\ migr = EmptyFn
-  /\ disk = [FreshDisk EXCEPT !.keys = "ok"]
+  /\ disk = FreshDisk
   /\ seen = EmptyFn
 
 OthersUntouched(id) ==
@@ -54,11 +54,12 @@ MCNext ==
   \/ \E a \in Auths : (AuthOutcome(a) \in {"new", "conflict"} => Len(disk.auths) < MaxAuths) /\ Auth(a)
   \/ \E d \in Reports : (Acceptable(d) => Len(disk.reports) < MaxReports) /\ RecvReport(d)
   \/ Close \/ StartLoad \/ StartDone
+  \/ Crash \/ CrashInFirstStart \/ (\E r \in Regs : CrashInRegister(r.k, r.sig))
 
 MCSpec == MCInit /\ [][MCNext]_vars
 
 (* C07: at most one registration ever succeeds: the key file never changes once written *)
-GcaFileWriteOnce == [][disk.gcafile # "absent" => disk'.gcafile = disk.gcafile]_vars
+GcaFileWriteOnce == [][disk.gcafile \notin {"absent", "empty"} => disk'.gcafile = disk.gcafile]_vars
 (* C06: bans survive everything, including restart *)
 BansSurvive == [][up' # "down" /\ up' # "failed" /\ ~(up = "down") => bans \subseteq bans']_vars
 StartSucceeds == up # "failed"
